@@ -1,35 +1,347 @@
-"""Extract the keep-set recipe of ABCARMPropertyGraph.generate_adms (C13) into Lean.
+"""Extract the keep-set recipe of ABCARMPropertyGraph.generate_adms (C13) into Lean - by behavioural probing.
 
-Read from /repo's working tree:
+The Lean model (Model/Arm.lean) is parametric in a configuration `Cfg`:
 
-  fim/graph/resources/abc_arm.py  generate_adms
-      keep_nodes = keep_nodes_sets[del_id].union(stitch_nodes)
-      all_cp_ids = self.get_all_nodes_by_class(label=ABCPropertyGraph.<CP class>)
-      for cp in keep_cps:                                   # loop 1 ("link traces")
-          cp_neighbors = self.get_first_and_second_neighbor(node_id=cp, rel1=, node1_label=, rel2=, node2_label=)
-          for pair in cp_neighbors: ...keep_nodes.update(pair); new_cps.add(pair[1])
-      keep_cps.update(new_cps)
-      for cp in keep_cps:                                   # loop 2 ("owner traces")
-          cp_neighbors = ...; for pair in cp_neighbors: ...keep_nodes.update(pair)      (any number of such blocks)
-      remove_nodes = set(self.node_ids); remove_nodes.difference_update(keep_nodes); delete_node each
-  fim/graph/networkx_property_graph.py  get_first_and_second_neighbor
-      which variable the second-hop relation filter appends to its drop list (`n`: the filter is inert, `k`: it filters)
-      and that self (real_node) is removed from the second neighbours
-  get_stitch_nodes: the property/value it selects on
+    dropsK       does the second-hop relation filter of get_first_and_second_neighbor filter (k) or is it inert (n)
+    cpClass      the class whose members among the definite keep nodes are the seeds of the traces
+    linkTraces   (rel1, l1, rel2, l2) queries whose second element becomes a connection point that is traced in turn
+    linkRounds   how often that is repeated: none = until nothing new turns up, some k = k passes
+    ownerTraces  queries made from every connection point kept after the link traces; results kept, not followed
+    stitchProp / stitchTrue   what get_stitch_nodes selects on
 
-Every other shape is an ExtractionError.
+Earlier versions matched the AST of generate_adms statement by statement; any harmless rewrite (extracting the
+closure into a helper method, a local alias for delegations_info[del_id], a loop over the two owner labels, a
+comprehension instead of an append loop in the backend) broke the extraction.  Now the SOURCE TEXT IS NOT MATCHED:
+
+ 1. get_first_and_second_neighbor of the in-memory backend is run on an exhaustive family of small probe graphs and
+    compared with the two variants of the model's `firstSecond`; exactly one must agree everywhere  -> dropsK
+ 2. get_stitch_nodes is run on a probe graph carrying every near miss of the selection           -> stitchProp/True
+ 3. generate_adms is run on probe ARMs (hand-made discriminating ones plus a fixed pseudo-random family) through a
+    real NetworkXARMGraph whose two-hop query and class query are recorded: the recorded calls give the VOCABULARY
+    (the distinct query tuples in order of first use, the class asked for); every assignment of roles (link/owner) to
+    the tuples and every number of rounds (1, 2, fixed point) is a CANDIDATE member of the model family; a Python
+    rendering of the model's `keepOn` predicts the node set of every partition for every candidate; exactly one
+    candidate must predict every observed partition                                                -> the rest
+ 4. best-effort static cross-check: every get_first_and_second_neighbor call in abc_arm.py whose arguments are
+    constants must have been exercised by the probes (otherwise the probes are blind to it).
+
+Anything else (no candidate fits, two fit, a crash) is an ExtractionError: the pipeline then falls back to the baseline
+model and lets correspondence + oracle decide.
 """
 import ast
 import importlib
+import itertools
+import json
+import random
 
 from .common import *
 
 ARM = "fim/graph/resources/abc_arm.py"
 NXPG = "fim/graph/networkx_property_graph.py"
 
+CP, LINK, NS, NN, COMP = "ConnectionPoint", "Link", "NetworkService", "NetworkNode", "Component"
+
+
+# ---------------------------------------------------------------------------
+# probe graphs: {"nodes": [[id, cls, {props}, ldel, cdel]], "edges": [[a, b, rel]]}; ldel/cdel = None | {id: entry}
+
+
+def _fresh_store():
+    from fim.graph.networkx_property_graph import NetworkXGraphStorage
+    NetworkXGraphStorage.storage_instance = None
+
+
+def _load(w, graph_id="probe-arm"):
+    import networkx as nx
+    from fim.graph.networkx_property_graph import NetworkXGraphImporter, NetworkXPropertyGraph
+    _fresh_store()
+    imp = NetworkXGraphImporter()
+    g = nx.Graph()
+    for i, c, ps, l, cd in w["nodes"]:
+        a = {"NodeID": i, "Class": c}
+        a.update(ps)
+        for name, v in (("LabelDelegations", l), ("CapacityDelegations", cd)):
+            if v is not None:
+                a[name] = json.dumps(v)
+        g.add_node(i, **a)
+    for a, b, r in w["edges"]:
+        g.add_edge(a, b, Class=r)
+    imp.storage.add_graph(graph_id, g)
+    return NetworkXPropertyGraph(graph_id=graph_id, importer=imp)
+
+
+class _View:
+    """adjacency view of a probe graph for the reference functions"""
+
+    def __init__(self, w):
+        self.cls = {n[0]: n[1] for n in w["nodes"]}
+        self.props = {n[0]: n[2] for n in w["nodes"]}
+        self.dels = {n[0]: (n[3], n[4]) for n in w["nodes"]}
+        self.order = [n[0] for n in w["nodes"]]
+        self.nbrs = {i: [] for i in self.order}
+        for a, b, r in w["edges"]:
+            self.nbrs[a].append((b, r))
+            if a != b:
+                self.nbrs[b].append((a, r))
+
+
+def ref_first_second(drops_k, v, x, t):
+    """Model/Arm.lean `firstSecond` (as a list of pairs)"""
+    rel1, l1, rel2, l2 = t
+    out = []
+    for n in [y for y, r in v.nbrs[x] if r == rel1 and v.cls.get(y) == l1]:
+        if drops_k:
+            drop = [k for k, r in v.nbrs[n] if r != rel2]
+        else:
+            drop = [n] if any(r != rel2 for _, r in v.nbrs[n]) else []
+        for k, _ in v.nbrs[n]:
+            if k not in drop and v.cls.get(k) == l2 and k != x:
+                out.append((n, k))
+    return out
+
+
+def ref_keep(cand, v, d, stitch):
+    """Model/Arm.lean `keepOn` for one candidate configuration -> set of kept ids"""
+    holders = [i for i in v.order if any(x is not None and d in x for x in v.dels[i])]
+    k0 = holders + stitch
+    cps = [i for i in k0 if v.cls[i] == cand["cp_class"]]
+    keep = set(k0)
+    seen, front = list(cps), list(cps)
+    rounds = cand["rounds"]
+    fuel = len(v.order) + 1 if rounds is None else rounds
+    while fuel > 0 and front:
+        fuel -= 1
+        ps = [p for c in front for t in cand["link"] for p in ref_first_second(cand["drops_k"], v, c, t)]
+        for p in ps:
+            keep.update(p)
+        new = []
+        for _, k in ps:
+            if k not in seen and k not in new:
+                new.append(k)
+        seen += new
+        front = new
+    for c in seen:
+        for t in cand["owner"]:
+            for p in ref_first_second(cand["drops_k"], v, c, t):
+                keep.update(p)
+    return keep
+
+
+# ---------------------------------------------------------------------------
+# 1. the two-hop query
+
+
+def _two_hop_probes():
+    """x - n? - k? shapes over two relations and three classes: every subset of a small edge menu"""
+    probes = []
+    menu = [("x", "n1", "r1"), ("x", "n2", "r1"), ("x", "n3", "r2"), ("n1", "k1", "r2"), ("n1", "k2", "r1"), ("n1", "k3", "r2"),
+            ("n2", "k1", "r2"), ("n2", "x2", "r2"), ("n1", "n2", "r2"), ("k1", "x", "r2")]
+    classes = {"x": "A", "x2": "A", "n1": "B", "n2": "B", "n3": "B", "k1": "A", "k2": "A", "k3": "C"}
+    for m in range(1 << len(menu)):
+        edges = [e for i, e in enumerate(menu) if m >> i & 1]
+        if not any(e[0] == "x" or e[1] == "x" for e in edges):
+            continue
+        ids = sorted({i for e in edges for i in e[:2]} | {"x"})
+        probes.append({"nodes": [[i, classes[i], {}, None, None] for i in ids], "edges": [list(e) for e in edges]})
+    return probes
+
+
+def probe_two_hop():
+    probes = _two_hop_probes()
+    queries = [("r1", "B", "r2", "A"), ("r1", "B", "r1", "A"), ("r2", "B", "r2", "A"), ("r1", "B", "r2", "C")]
+    ok = {True: True, False: True}
+    differ = False
+    n = 0
+    for w in probes:
+        g = _load(w)
+        v = _View(w)
+        for t in queries:
+            try:
+                got = g.get_first_and_second_neighbor(node_id="x", rel1=t[0], node1_label=t[1], rel2=t[2], node2_label=t[3])
+            except Exception as e:
+                raise ExtractionError("get_first_and_second_neighbor raised %s on probe %s" % (type(e).__name__, json.dumps(w)[:300]))
+            got = sorted(tuple(p) for p in got)
+            n += 1
+            pred = {dk: sorted(ref_first_second(dk, v, "x", t)) for dk in (True, False)}
+            differ = differ or pred[True] != pred[False]
+            for dk in (True, False):
+                if got != pred[dk]:
+                    ok[dk] = False
+            if not ok[True] and not ok[False]:
+                raise ExtractionError("get_first_and_second_neighbor is neither variant of the model's firstSecond: probe %s query %s "
+                                      "gives %s, model %s (filtering) / %s (inert)" % (json.dumps(w)[:300], t, got, pred[True], pred[False]))
+    _fresh_store()
+    if not differ or (ok[True] and ok[False]):
+        raise ExtractionError("two-hop probes do not discriminate the variants of the second-hop filter")
+    return ok[True], n
+
+
+# ---------------------------------------------------------------------------
+# 2. stitch nodes
+
+
+def probe_stitch():
+    import fim.graph.abc_property_graph as m
+    prop = m.ABCPropertyGraph.PROP_STITCH_NODE
+    val = "true"
+    near = [("s1", {prop: val}), ("s2", {prop: val, "Name": "x"}), ("f1", {prop: "false"}), ("f2", {prop: "True"}), ("f3", {prop: "TRUE"}),
+            ("f4", {prop: "1"}), ("f5", {}), ("f6", {"Name": val}), ("f7", {prop.lower(): val}), ("f8", {prop + "s": val}), ("f9", {prop: "None"})]
+    w = {"nodes": [[i, NN if k % 2 else CP, ps, None, None] for k, (i, ps) in enumerate(near)], "edges": [["s1", "f1", "has"]]}
+    g = _load(w)
+    # a second graph in the same store whose stitch node must not be reported
+    import networkx as nx
+    other = nx.Graph()
+    other.add_node("o1", NodeID="o1", Class=NN, **{prop: val})
+    g.importer.storage.add_graph("probe-other", other)
+    try:
+        got = sorted(g.get_stitch_nodes())
+    except Exception as e:
+        raise ExtractionError("get_stitch_nodes raised %s on the probe graph" % type(e).__name__)
+    _fresh_store()
+    if got != ["s1", "s2"]:
+        raise ExtractionError("get_stitch_nodes does not select exactly the nodes of this graph with %s == %r: got %s" % (prop, val, got))
+    return prop, val
+
+
+# ---------------------------------------------------------------------------
+# 3. the closure recipe of generate_adms
+
+_E = {"pool": "p"}
+
+
+def _closure_probes():
+    """hand-made ARMs that tell the candidates apart, then a fixed pseudo-random family"""
+    def n(i, c, ps=None, l=None, cd=None):
+        return [i, c, ps or {}, l, cd]
+    d1, d2 = {"d1": _E}, {"d2": _E}
+    st = {"StitchNode": "true"}
+    out = []
+    # a chain of connection points over links, every one with its service and owner; only the head is delegated
+    nodes, edges = [], []
+    for k in range(5):
+        nodes += [n("c%d" % k, CP, None, d1 if k == 0 else None), n("s%d" % k, NS), n("o%d" % k, NN if k % 2 else COMP, None, None, d2 if k == 4 else None)]
+        edges += [["c%d" % k, "s%d" % k, "connects"], ["s%d" % k, "o%d" % k, "has"]]
+        if k:
+            nodes.append(n("l%d" % k, LINK))
+            edges += [["c%d" % (k - 1), "l%d" % k, "connects"], ["l%d" % k, "c%d" % k, "connects"]]
+    out.append({"nodes": nodes, "edges": edges})
+    # the same chain hanging off a stitch connection point instead of a delegated one, the delegation elsewhere
+    nodes2 = [([i, c, dict(st) if i == "c0" else ps, None if i == "c0" else l, cd]) for i, c, ps, l, cd in nodes] + [n("z", NN, None, d1)]
+    out.append({"nodes": nodes2, "edges": edges})
+    # owners that look like seeds: a delegated NetworkNode / Component / NetworkService / Link with 'connects' edges of its own
+    out.append({"nodes": [n("c", CP, None, d1), n("s", NS), n("o", NN), n("s2", NS), n("o2", NN), n("o3", COMP), n("l", LINK), n("c2", CP),
+                          n("x", NN, None, None, d2), n("xs", NS), n("xo", NN), n("y", LINK, None, d2), n("yc", CP), n("ys", NS), n("yo", COMP),
+                          n("sc", NS), n("oc", COMP), n("s3", NS), n("o4", NN), n("l2", LINK), n("c3", CP), n("s4", NS), n("o5", COMP)],
+                "edges": [["c", "sc", "connects"], ["sc", "oc", "has"], ["oc", "s3", "connects"], ["s3", "o4", "has"], ["oc", "l2", "connects"],
+                          ["l2", "c3", "connects"], ["oc", "s4", "connects"], ["s4", "o5", "has"],
+                          ["c", "s", "connects"], ["s", "o", "has"], ["o", "s2", "connects"], ["s2", "o2", "has"], ["s2", "o3", "has"],
+                          ["o", "l", "connects"], ["l", "c2", "connects"],
+                          ["x", "xs", "connects"], ["xs", "xo", "has"], ["y", "yc", "connects"], ["yc", "ys", "connects"], ["ys", "yo", "has"]]})
+    # a port with three links (the facility-facing port), ends delegated differently; a link reached over 'has'
+    out.append({"nodes": [n("p", CP, None, d1), n("la", LINK), n("a", CP, None, None, d2), n("lb", LINK), n("b", CP), n("lc", LINK), n("c", CP, st),
+                          n("b2l", LINK), n("b2", CP), n("as", NS), n("ao", NN), n("bs", NS), n("bo", COMP), n("b2s", NS), n("b2o", NN), n("hl", LINK), n("hc", CP)],
+                "edges": [["p", "la", "connects"], ["la", "a", "connects"], ["p", "lb", "connects"], ["lb", "b", "connects"], ["p", "lc", "connects"],
+                          ["lc", "c", "connects"], ["b", "b2l", "connects"], ["b2l", "b2", "connects"], ["a", "as", "connects"], ["as", "ao", "has"],
+                          ["b", "bs", "connects"], ["bs", "bo", "has"], ["b2", "b2s", "connects"], ["b2s", "b2o", "has"],
+                          ["a", "hl", "has"], ["hl", "hc", "connects"]]})
+    rng = random.Random("armcfg-probes")
+    for _ in range(40):
+        k = rng.randint(3, 9)
+        ids = ["d1", "d2", "d3"][:rng.randint(1, 3)]
+        nodes = []
+        for i in range(k):
+            def dp():
+                return None if rng.random() < 0.6 else {x: _E for x in rng.sample(ids, rng.randint(1, len(ids)))}
+            nodes.append(n("n%d" % i, rng.choice([CP, CP, CP, LINK, NS, NS, NN, COMP]), dict(st) if rng.random() < 0.15 else {}, dp(), dp()))
+        es = {}
+        for _ in range(rng.randint(k - 1, 2 * k)):
+            a, b = rng.randrange(k), rng.randrange(k)
+            if a != b:
+                es[(min(a, b), max(a, b))] = ["n%d" % min(a, b), "n%d" % max(a, b), rng.choice(["connects", "connects", "has"])]
+        out.append({"nodes": nodes, "edges": [es[x] for x in sorted(es)]})
+    return out
+
+
+def _observe(w):
+    """run generate_adms on probe ARM w; -> (two-hop calls, class queries, {delegation id: set of node ids})"""
+    from fim.graph.resources.networkx_arm import NetworkXARMGraph
+    g = _load(w)
+    arm = NetworkXARMGraph(graph=g)
+    calls, classes = [], []
+    real2, realc = arm.get_first_and_second_neighbor, arm.get_all_nodes_by_class
+
+    def spy2(*a, **kw):
+        if a or sorted(kw) != ["node1_label", "node2_label", "node_id", "rel1", "rel2"]:
+            raise ExtractionError("generate_adms calls get_first_and_second_neighbor with other arguments: %s %s" % (a, sorted(kw)))
+        calls.append((kw["node_id"], (kw["rel1"], kw["node1_label"], kw["rel2"], kw["node2_label"])))
+        return real2(**kw)
+
+    def spyc(*a, **kw):
+        classes.append(kw.get("label", a[0] if a else None))
+        return realc(*a, **kw)
+    arm.get_first_and_second_neighbor = spy2
+    arm.get_all_nodes_by_class = spyc
+    ids = sorted({d for nd in w["nodes"] for x in nd[3:5] if x for d in x})
+    try:
+        adms = arm.generate_adms(delegation_guids={d: "probe-adm-" + d for d in ids})
+    except ExtractionError:
+        raise
+    except Exception as e:
+        raise ExtractionError("generate_adms raised %s (%s) on probe ARM %s" % (type(e).__name__, str(e)[:120], json.dumps(w)[:300]))
+    return calls, classes, {d: set(a.list_all_node_ids()) for d, a in adms.items()}
+
+
+def probe_closure(drops_k, stitch_prop, stitch_true):
+    probes = _closure_probes()
+    obs = []
+    vocab, classes = [], []
+    for w in probes:
+        calls, cl, parts = _observe(w)
+        for _, t in calls:
+            if t not in vocab:
+                vocab.append(t)
+        for c in cl:
+            if c not in classes:
+                classes.append(c)
+        v = _View(w)
+        stitch = [i for i in v.order if v.props[i].get(stitch_prop) == stitch_true]
+        ids = sorted({d for x in v.dels.values() for y in x if y for d in y})
+        if sorted(parts) != ids:
+            raise ExtractionError("generate_adms returns models for %s on a probe ARM with delegation ids %s" % (sorted(parts), ids))
+        obs.append((v, stitch, parts, calls))
+    _fresh_store()
+    if len(classes) != 1 or not isinstance(classes[0], str):
+        raise ExtractionError("generate_adms asks get_all_nodes_by_class for %s (expected one class: the connection points)" % classes)
+    if not vocab or len(vocab) > 6:
+        raise ExtractionError("generate_adms made %d distinct two-hop queries on the probe ARMs (model family: 1..6)" % len(vocab))
+    fits = []
+    for roles in itertools.product((0, 1), repeat=len(vocab)):
+        for rounds in (1, 2, None):
+            cand = {"drops_k": drops_k, "cp_class": classes[0], "rounds": rounds,
+                    "link": [t for t, r in zip(vocab, roles) if r == 0], "owner": [t for t, r in zip(vocab, roles) if r == 1]}
+            if all(ref_keep(cand, v, d, stitch) & set(v.order) == got for v, stitch, parts, _ in obs for d, got in parts.items()):
+                fits.append(cand)
+    if not fits:
+        raise ExtractionError("the partitions generate_adms produces on the probe ARMs are not those of any member of the model family "
+                              "(vocabulary %s, class %s)" % (vocab, classes[0]))
+    if len(fits) > 1:
+        raise ExtractionError("probe ARMs do not discriminate %d members of the model family: %s" % (len(fits), fits))
+    cand = fits[0]
+    # a query only ever issued from connection points the link traces found must still have been issued: every recorded call is
+    # one the fitted member makes (seed/peer connection point x its traces); more calls than that = behaviour the model does not have
+    for v, stitch, parts, calls in obs:
+        allowed = set(cand["link"]) | set(cand["owner"])
+        if any(t not in allowed for _, t in calls):
+            raise ExtractionError("recorded a two-hop query outside the fitted vocabulary")
+    return cand, vocab, len(obs)
+
+
+# ---------------------------------------------------------------------------
+# 4. static cross-check
+
 
 def _const(node):
-    """ABCPropertyGraph.X / self.X  ->  its string value in the running code."""
+    """ABCPropertyGraph.X / self.X / 'literal'  ->  its string value in the running code, else None"""
     if isinstance(node, ast.Constant) and isinstance(node.value, str):
         return node.value
     if isinstance(node, ast.Attribute) and isinstance(node.value, ast.Name) and node.value.id in ("ABCPropertyGraph", "self"):
@@ -37,128 +349,49 @@ def _const(node):
         v = getattr(m.ABCPropertyGraph, node.attr, None)
         if isinstance(v, str):
             return v
-    raise ExtractionError("cannot resolve constant %s" % ast.dump(node)[:120])
+    return None
 
 
-def _is_keepnodes_update_pair(st):
-    # delegations_info[del_id].keep_nodes.update(pair)
-    return (isinstance(st, ast.Expr) and isinstance(st.value, ast.Call) and isinstance(st.value.func, ast.Attribute)
-            and st.value.func.attr == "update" and isinstance(st.value.func.value, ast.Attribute)
-            and st.value.func.value.attr == "keep_nodes" and len(st.value.args) == 1
-            and isinstance(st.value.args[0], ast.Name) and st.value.args[0].id == "pair")
-
-
-def _is_newcps_add_pair1(st):
-    return (isinstance(st, ast.Expr) and isinstance(st.value, ast.Call) and isinstance(st.value.func, ast.Attribute)
-            and st.value.func.attr == "add" and getattr(st.value.func.value, "id", "") == "new_cps"
-            and len(st.value.args) == 1 and isinstance(st.value.args[0], ast.Subscript)
-            and getattr(st.value.args[0].value, "id", "") == "pair"
-            and isinstance(st.value.args[0].slice, ast.Constant) and st.value.args[0].slice.value == 1)
-
-
-def _trace_blocks(loop, want_new_cps):
-    """body of `for cp in keep_cps:` -> list of (rel1,l1,rel2,l2)."""
-    body = [s for s in loop.body if not (isinstance(s, ast.Expr) and isinstance(s.value, ast.Constant))]
-    if len(body) % 2 or not body:
-        raise ExtractionError("keep_cps loop: expected (assign, for pair) blocks")
-    out = []
-    for a, f in zip(body[0::2], body[1::2]):
-        if not (isinstance(a, ast.Assign) and getattr(a.targets[0], "id", "") == "cp_neighbors" and isinstance(a.value, ast.Call)
-                and isinstance(a.value.func, ast.Attribute) and a.value.func.attr == "get_first_and_second_neighbor"
-                and getattr(a.value.func.value, "id", "") == "self" and not a.value.args):
-            raise ExtractionError("keep_cps loop: not cp_neighbors = self.get_first_and_second_neighbor(...)")
-        kw = {k.arg: k.value for k in a.value.keywords}
-        if sorted(kw) != ["node1_label", "node2_label", "node_id", "rel1", "rel2"] or getattr(kw["node_id"], "id", "") != "cp":
-            raise ExtractionError("keep_cps loop: keyword arguments of get_first_and_second_neighbor changed")
-        if not (isinstance(f, ast.For) and getattr(f.target, "id", "") == "pair" and getattr(f.iter, "id", "") == "cp_neighbors"
-                and not f.orelse):
-            raise ExtractionError("keep_cps loop: not `for pair in cp_neighbors`")
-        inner = [s for s in f.body if not (isinstance(s, ast.Expr) and isinstance(s.value, ast.Constant))]
-        ups = [s for s in inner if _is_keepnodes_update_pair(s)]
-        adds = [s for s in inner if _is_newcps_add_pair1(s)]
-        if len(ups) != 1 or len(ups) + len(adds) != len(inner) or (len(adds) == 1) != want_new_cps:
-            raise ExtractionError("keep_cps loop: body of `for pair` changed")
-        out.append(tuple(_const(kw[k]) for k in ("rel1", "node1_label", "rel2", "node2_label")))
-    return out
+def static_traces():
+    """two-hop query tuples written out with constant arguments anywhere in ABCARMPropertyGraph; (resolved, unresolved count)"""
+    tree, src = parse(ARM)
+    cls = find_class(tree, "ABCARMPropertyGraph")
+    out, dyn = [], 0
+    for c in ast.walk(cls):
+        if isinstance(c, ast.Call) and isinstance(c.func, ast.Attribute) and c.func.attr == "get_first_and_second_neighbor":
+            kw = {k.arg: _const(k.value) for k in c.keywords if k.arg}
+            t = tuple(kw.get(k) for k in ("rel1", "node1_label", "rel2", "node2_label"))
+            if all(x is not None for x in t):
+                if t not in out:
+                    out.append(t)
+            else:
+                dyn += 1
+    return out, dyn
 
 
 def extract():
-    tree, src = parse(ARM)
-    cls = find_class(tree, "ABCARMPropertyGraph")
-    fn = find_func(cls, "generate_adms")
-    loops = []
-    for st in ast.walk(fn):
-        if isinstance(st, ast.For) and getattr(st.target, "id", "") == "cp" and getattr(st.iter, "id", "") == "keep_cps":
-            loops.append(st)
-    loops.sort(key=lambda s: s.lineno)
-    if len(loops) != 2:
-        raise ExtractionError("generate_adms: expected two `for cp in keep_cps` loops, found %d" % len(loops))
-    link_traces = _trace_blocks(loops[0], True)
-    owner_traces = _trace_blocks(loops[1], False)
-    text = ast.get_source_segment(src, fn)
-    # the statements between / around the loops the model relies on
-    need = ["keep_nodes=keep_nodes_sets[del_id].union(stitch_nodes)",
-            "keep_cps.update(new_cps)",
-            "delegations_info[del_id].remove_nodes = set(self.node_ids)",
-            "delegations_info[del_id].remove_nodes.difference_update(delegations_info[del_id].keep_nodes)",
-            "delegations_info[del_id].graph.delete_node(node_id=node_id)",
-            "stitch_nodes = self.get_stitch_nodes()",
-            "if node_id in all_cp_ids:"]
-    flat = " ".join(text.split())
-    for n in need:
-        if " ".join(n.split()) not in flat:
-            raise ExtractionError("generate_adms: statement `%s` not found" % n)
-    cp_class = None
-    for st in ast.walk(fn):
-        if isinstance(st, ast.Assign) and getattr(st.targets[0], "id", "") == "all_cp_ids":
-            c = st.value
-            if not (isinstance(c, ast.Call) and getattr(c.func, "attr", "") == "get_all_nodes_by_class" and len(c.keywords) == 1):
-                raise ExtractionError("all_cp_ids is not get_all_nodes_by_class(label=...)")
-            cp_class = _const(c.keywords[0].value)
-    if cp_class is None:
-        raise ExtractionError("all_cp_ids assignment not found")
-
-    tree2, src2 = parse(NXPG)
-    pg = find_class(tree2, "NetworkXPropertyGraph")
-    f2 = find_func(pg, "get_first_and_second_neighbor")
-    # for n in first_neighbors: ... for k in second_neighbors: if <edge (n,k)>.get(LABEL) != rel2: neighbor_drop_list.append(X)
-    outer = [s for s in f2.body if isinstance(s, ast.For) and getattr(s.target, "id", "") == "n"
-             and any(isinstance(x, ast.For) and getattr(x.target, "id", "") == "k" for x in s.body)]
-    if len(outer) != 1:
-        raise ExtractionError("get_first_and_second_neighbor: second-hop loop not found")
-    inner = [x for x in outer[0].body if isinstance(x, ast.For) and getattr(x.target, "id", "") == "k"][0]
-    if not (len(inner.body) == 1 and isinstance(inner.body[0], ast.If) and not inner.body[0].orelse and len(inner.body[0].body) == 1):
-        raise ExtractionError("get_first_and_second_neighbor: second-hop filter body changed")
-    test = inner.body[0].test
-    if not (isinstance(test, ast.Compare) and isinstance(test.ops[0], ast.NotEq) and getattr(test.comparators[0], "id", "") == "rel2"):
-        raise ExtractionError("get_first_and_second_neighbor: second-hop test is not `... != rel2`")
-    app = inner.body[0].body[0]
-    if not (isinstance(app, ast.Expr) and isinstance(app.value, ast.Call) and getattr(app.value.func, "attr", "") == "append"
-            and getattr(app.value.func.value, "id", "") == "neighbor_drop_list" and len(app.value.args) == 1
-            and getattr(app.value.args[0], "id", "") in ("n", "k")):
-        raise ExtractionError("get_first_and_second_neighbor: second-hop drop is not neighbor_drop_list.append(n|k)")
-    drops_k = app.value.args[0].id == "k"
-    t2 = " ".join(ast.get_source_segment(src2, f2).split())
-    for n in ["if real_node in second_neighbors: second_neighbors.remove(real_node)",
-              "if graph.edges[(real_node, n)].get(self.NETWORKX_LABEL, None) != rel1: neighbor_drop_list.append(n)",
-              "first_neighbors = self._filter_nodes_by_label(graph, first_neighbors, node1_label)",
-              "second_neighbors = self._filter_nodes_by_label(graph, second_neighbors, node2_label)"]:
-        if n not in t2:
-            raise ExtractionError("get_first_and_second_neighbor: statement `%s` not found" % n)
-    f3 = find_func(pg, "get_stitch_nodes")
-    t3 = " ".join(ast.get_source_segment(src2, f3).split())
-    if "{'eq': [ABCPropertyGraph.PROP_STITCH_NODE, 'true']}" not in t3:
-        raise ExtractionError("get_stitch_nodes: selection changed")
     import fim.graph.abc_property_graph as m
     C = m.ABCPropertyGraph
     import fim.graph.resources.abc_arm as am
     importlib.reload(am)
+    import fim.graph.resources.networkx_arm as nam
+    importlib.reload(nam)
     from fim.slivers.delegations import DelegationType
+    try:
+        drops_k, n2 = probe_two_hop()
+        stitch_prop, stitch_true = probe_stitch()
+        cand, vocab, n3 = probe_closure(drops_k, stitch_prop, stitch_true)
+    finally:
+        _fresh_store()
+    st, dyn = static_traces()
+    missing = [t for t in st if t not in vocab]
+    if missing:
+        raise ExtractionError("abc_arm.py contains two-hop queries the probe ARMs never exercised: %s" % missing)
     t2p = am.ABCARMPropertyGraph.DELEGATION_TYPE_TO_PROP
-    return {"link_traces": link_traces, "owner_traces": owner_traces, "cp_class": cp_class, "drops_k": drops_k,
-            "stitch_prop": C.PROP_STITCH_NODE, "stitch_true": "true",
+    return {"link_traces": cand["link"], "owner_traces": cand["owner"], "link_rounds": cand["rounds"], "cp_class": cand["cp_class"],
+            "drops_k": drops_k, "stitch_prop": stitch_prop, "stitch_true": stitch_true,
             "ldel": t2p[DelegationType.LABEL], "cdel": t2p[DelegationType.CAPACITY], "none": C.NEO4j_NONE,
-            "span": [span_hash(src, fn), span_hash(src2, f2), span_hash(src2, f3)]}
+            "probes": {"two_hop_queries": n2, "closure_arms": n3, "static_traces": len(st), "static_unresolved": dyn}}
 
 
 def _traces(ts):
@@ -168,12 +401,14 @@ def _traces(ts):
 def generate():
     c = extract()
     body = ""
-    body += "/-- `neighbor_drop_list.append(k)` (true) or `.append(n)` (false) in the second-hop relation filter -/\n"
+    body += "/-- the second-hop relation filter of `get_first_and_second_neighbor` filters (true) or is inert (false: `append(n)`) -/\n"
     body += "def secondHopDropsK : Bool := %s\n" % ("true" if c["drops_k"] else "false")
     body += "def cpClass : String := %s\n" % lean_str(c["cp_class"])
-    body += "/-- (rel1, node1_label, rel2, node2_label) of the calls in the first `for cp in keep_cps` loop (second element becomes a new cp) -/\n"
+    body += "/-- (rel1, node1_label, rel2, node2_label) of the queries whose second element becomes a connection point that is traced in turn -/\n"
     body += "def linkTraces : List (String × String × String × String) := %s\n" % _traces(c["link_traces"])
-    body += "/-- the calls in the second `for cp in keep_cps` loop -/\n"
+    body += "/-- passes of the link traces: `none` = repeated until no new connection point turns up -/\n"
+    body += "def linkRounds : Option Nat := %s\n" % ("none" if c["link_rounds"] is None else "some %d" % c["link_rounds"])
+    body += "/-- the queries made from every connection point kept after the link traces (results kept, not followed) -/\n"
     body += "def ownerTraces : List (String × String × String × String) := %s\n" % _traces(c["owner_traces"])
     body += "def stitchProp : String := %s\n" % lean_str(c["stitch_prop"])
     body += "def stitchTrue : String := %s\n" % lean_str(c["stitch_true"])
@@ -181,5 +416,5 @@ def generate():
     body += "def capacityDelegationsProp : String := %s\n" % lean_str(c["cdel"])
     body += "def noneMarker : String := %s\n" % lean_str(c["none"])
     changed = emit("ArmCfg", body)
-    return {"changed": changed, "link_traces": c["link_traces"], "owner_traces": c["owner_traces"], "cp_class": c["cp_class"],
-            "second_hop_drops_k": c["drops_k"], "span": c["span"]}
+    return {"changed": changed, "link_traces": c["link_traces"], "owner_traces": c["owner_traces"], "link_rounds": c["link_rounds"],
+            "cp_class": c["cp_class"], "second_hop_drops_k": c["drops_k"], "probes": c["probes"]}
